@@ -1,5 +1,5 @@
 """C11 - kdtree results are independent of worker count, chunking and compression."""
-from ._nn import check_encoder, check_extract, check_kd, check_limit, check_pool, check_roles_consistent, run_fga
+from ._nn import check_engines_stateless, check_encoder, check_extract, check_kd, check_limit, check_pool, check_roles_consistent, run_fga
 
 CLAIMED = True
 LEVEL = "other"
@@ -19,6 +19,7 @@ def run(r):
     rep.trust("multiprocessing.Pool.map(f, it, chunksize) preserves input order; chunksize must be None or >= 1 (chunksize 0 yields None results)",
               "fork start method: workers inherit module globals as they were when the pool was created", "rapidfuzz.process.extract model (libmodels)")
     check_pool(r, "C11")
+    check_engines_stateless(r, "C11-STATE", entries=("kdtree",))
     check_roles_consistent(r, "C11-BLK")
     check_limit(r, "C11-LIM")
     check_extract(r, "C11-LIM")
